@@ -53,6 +53,9 @@ def producible_names():
 
 def config_names():
     names = ["C-" + c for c in string.ascii_lowercase] + ["M-" + chr(c) for c in range(32, 127)] + ["F%d" % i for i in range(1, 13)]
+    # the function keys F1-F12 in every spelling of their number that the map reads as that number (leading zeros, full-width digits)
+    fw = str.maketrans("0123456789", "０１２３４５６７８９")
+    names += ["F0%d" % i for i in range(1, 13)] + ["F00%d" % i for i in range(1, 13)] + [("F%d" % i).translate(fw) for i in range(1, 13)]
     from curtsies import configfile_keynames as K
     return names + sorted(K.SPECIALS)
 
